@@ -181,6 +181,7 @@ def run(prog, R):
                     R.ob("C12.2-span-provenance", "aggregate:" + inventory.ishort(k), k in ctor or k.startswith("<oq3_syntax::syntax_error::SyntaxError as"), s_["at"], "SyntaxError value built here")
     else:
         R.ob("ANCHOR", "SyntaxError", False)
+    R.premises(prog, "C12.3-per-file-premise", ["C18:C18.2-per-file-error-lists"], "a semantic diagnostic's range refers to the file its list is labelled with: each included file gets a list of its own, created with that file's path, swapped in for exactly the analysis of that file (C18.2)")
     R.premises(prog, "C12.2-token-offsets-premise", ["C14:C14.4-", "C14:C14.0-text-identity"], "ranges handed out by LexedStr / the tree are offsets into the given text only if the token table partitions exactly that text (no bytes skipped without a token)")
     # a semantic diagnostic reports the range of the node it was recorded on: SemanticError::range() is node.text_range()
     sr = [k for k in prog.bodies if k.startswith("oq3_semantics::semantic_error::SemanticError::range")]
